@@ -118,11 +118,11 @@ func init() {
 		Rule: "call sequences over {Get,GetHandler,Set,SetHandler,Abort,Commit} x keys x handlers {ok,fail,abort-then-ok,abort-then-fail}: all sequences up to length 3 over keys {x,y} (enumerated), random sequences of length 4..8 over {x,y,z}, each on the real mem transaction and on the serial fallback over a plain store, checked against a map model " +
 			"(result count, order, ids, Get values, handler errors, no effect after abort, store usable and equal to the model afterwards); plus free-running groups of 2..3 concurrent transactions on the mem store under the race detector (pairs of keys written together must be read together). Non-trivial: the sequence contains at least one Set or an abort; distinct by sequence text",
 		Assumptions: []string{"Sets made before an Abort persist (neither implementation rolls back; the property does not ask for it)", "Commit of an aborted transaction may return either an error or the per-call results"},
-		NumCases: func(env *core.Env) int { a, b, c := c18layout(env); return a + b + c },
-		Batch:    20,
-		Race:     true,
-		Run:      c18run,
-		Describe: func(env *core.Env, idx int) any { return fmt.Sprint("block ", idx) },
+		NumCases:    func(env *core.Env) int { a, b, c := c18layout(env); return a + b + c },
+		Batch:       20,
+		Race:        true,
+		Run:         c18run,
+		Describe:    func(env *core.Env, idx int) any { return fmt.Sprint("block ", idx) },
 		Floor: func(env *core.Env, agg *core.Agg) string {
 			if agg.Counters["sequences"] < 10000 || agg.Counters["aborted_sequences"] < 1000 || agg.Counters["concurrent_groups"] < 20 {
 				return fmt.Sprint(agg.Counters)
